@@ -204,6 +204,13 @@ func (te *tableEngine) batchAddPlayers(players []JoinPlayer) error {
 
 	if len(playerRandomSeatIDs) > 0 {
 		if err := te.sm.RandomAssignSeats(playerRandomSeatIDs); err != nil {
+			if len(playerSeatIDs) > 0 {
+				assignedPlayerIDs := make([]string, 0)
+				for playerID := range playerSeatIDs {
+					assignedPlayerIDs = append(assignedPlayerIDs, playerID)
+				}
+				te.sm.RemoveSeats(assignedPlayerIDs)
+			}
 			return err
 		}
 	}
